@@ -15,7 +15,7 @@ from enc import K, N, cbool, clist, cop, cpred, crows, cset, ctree, jsonable
 
 THEOREMS = ["C04_commute_sound", "C04_failed_commute_hands_back_current", "C04_join_commute_sound"]
 HDR = "From DR Require Import Model.CheckCommute.\nOpen Scope Z_scope.\n"
-ENG = iteration.Engine(name="it0", functions={"vid": lambda x: x})
+ENG = iteration.Engine(name="it0", functions={"vid": lambda x: x, "vid_it": lambda x: x})
 REG = enc.Registry()
 REG.add_engine(ENG, "it", 0)
 FIXED_ID = 99
